@@ -438,9 +438,7 @@ class SymdelDB:
         """
 
         ans = []
-        threshold = max_custom_distance
-        if custom_distance in (None, 'hamming') or max_custom_distance == float('inf'):
-            threshold = self.max_edits
+        is_custom = custom_distance not in (None, 'hamming')
         if custom_distance == 'hamming':
             custom_distance = _hamming_replacement
         elif custom_distance is None:
@@ -460,11 +458,18 @@ class SymdelDB:
                     j_indices.add(j)
             for j in j_indices:
                 dist = custom_distance(seqs2[i], self.seqs[j])
-                if dist > threshold:
+                if _outside_radius(seqs2[i], self.seqs[j], dist, is_custom,
+                                   self.max_edits, max_custom_distance):
                     continue
                 ans.append((i, j, dist))
 
         return _make_output(ans, output_type, self.seqs, seqs2)
+
+
+def _outside_radius(seq_a, seq_b, dist, is_custom, max_edits, max_custom_distance):
+    if not is_custom:
+        return dist > max_edits
+    return dist > max_custom_distance or levenshtein(seq_a, seq_b) > max_edits
 
 
 def _hamming_replacement(seq_a, seq_b):
@@ -527,9 +532,7 @@ def symdel(seqs, max_edits=1, max_returns=None, n_cpu=1,
 
     if seqs2 is None:
         ans = set()
-        threshold = max_custom_distance
-        if custom_distance in (None, 'hamming') or max_custom_distance == float('inf'):
-            threshold = max_edits
+        is_custom = custom_distance not in (None, 'hamming')
         if custom_distance == 'hamming':
             custom_distance = _hamming_replacement
         elif custom_distance is None:
@@ -541,7 +544,8 @@ def symdel(seqs, max_edits=1, max_returns=None, n_cpu=1,
                 continue
             for i, j in combinations(values, 2):
                 dist = custom_distance(seqs[i], seqs[j])
-                if dist > threshold:
+                if _outside_radius(seqs[i], seqs[j], dist, is_custom,
+                                   max_edits, max_custom_distance):
                     continue
                 ans.add((i, j, dist))
                 ans.add((j, i, dist))
